@@ -243,11 +243,91 @@ fn run_history(h: &Hist, hi: usize, ctx: &mut Ctx) -> Result<Final, Violation> {
                     );
                 }
                 ctx.probe("clone-diverged");
+                // both objects are alive and have diverged: printed in turn, each
+                // must print its own values (a shared print cache would not)
+                let mut after = before.clone();
+                match after.get_mut(&3) {
+                    Some(Val::A(a)) => a.push("clone-probe".to_string()),
+                    _ => {
+                        after.insert(3, Val::A(vec!["clone-probe".to_string()]));
+                    }
+                }
+                after.insert(2, Val::S("clone-probe".into()));
+                let order: [bool; 3] = if seed % 2 == 0 { [true, false, true] } else { [false, true, false] };
+                for first in order {
+                    let (got, want, who) = if first {
+                        (sum.to_string(), print_entry(&after), "the changed clone")
+                    } else {
+                        (orig.to_string(), print_entry(&before), "the original")
+                    };
+                    ensure!(
+                        got == want,
+                        "print-mismatch",
+                        "history {} op {}: a value and its clone printed in turn: {} printed {:?}, its own values print as {:?}",
+                        hi,
+                        oi,
+                        who,
+                        got,
+                        want
+                    );
+                }
                 // carry on with the untouched original
                 sum = orig;
             }
             Op::Print => {
                 ctx.step("print", 0, 0);
+                if oi % 3 == 0 {
+                    // printed through a sink that itself prints another entry from
+                    // inside write_str (a report writer that expands references):
+                    // a nested use of Display on the same thread
+                    ctx.probe("print-through-a-reentrant-sink");
+                    struct Sink<'a> {
+                        out: String,
+                        other: &'a Summary,
+                        inner: Vec<String>,
+                    }
+                    impl std::fmt::Write for Sink<'_> {
+                        fn write_str(&mut self, s: &str) -> std::fmt::Result {
+                            if self.inner.len() < 3 {
+                                self.inner.push(self.other.to_string());
+                            }
+                            self.out.push_str(s);
+                            Ok(())
+                        }
+                    }
+                    let mut other = Summary::new();
+                    other.set_pkgname("nested-1.0");
+                    other.set_comment("printed from inside write_str");
+                    other.push_depends("x-[0-9]*");
+                    other.set_size_pkg(7);
+                    let other_text = other.to_string();
+                    let mut sink = Sink {
+                        out: String::new(),
+                        other: &other,
+                        inner: Vec::new(),
+                    };
+                    use std::fmt::Write as _;
+                    let _ = write!(sink, "{}", sum);
+                    let want = print_entry(&model);
+                    ensure!(
+                        sink.out == want,
+                        "print-mismatch",
+                        "history {} op {}: printed through a sink that prints another entry from inside write_str: got {:?}, canonical print is {:?}",
+                        hi,
+                        oi,
+                        sink.out,
+                        want
+                    );
+                    ensure!(
+                        sink.inner.iter().all(|t| *t == other_text),
+                        "print-mismatch",
+                        "history {} op {}: the entry printed from inside write_str came out as {:?}, alone it prints {:?}",
+                        hi,
+                        oi,
+                        sink.inner,
+                        other_text
+                    );
+                }
                 let got = sum.to_string();
                 let want = print_entry(&model);
                 ensure!(
@@ -332,6 +412,20 @@ fn run_history(h: &Hist, hi: usize, ctx: &mut Ctx) -> Result<Final, Violation> {
                     ctx.probe("reparse-of-complete-entry");
                     let __w = Work::start(); let text = sum.to_string(); __w.stop(ctx, text.len() + 256);
                     set_hash_seed(*seed);
+                    if seed % 2 == 0 {
+                        // an earlier parse on this thread that is rejected AFTER it has
+                        // read lines of multi-line variables: nothing of it may reach
+                        // the next parse
+                        ctx.probe("rejected-parse-before-the-next-one");
+                        let doomed = "DEPENDS=stale-[0-9]*\nCONFLICTS=stale-conflict\nDESCRIPTION=stale line\nPROVIDES=stale.so\nREQUIRES=stale.so\nSUPERSEDES=stale\nFILE_SIZE=not-a-number\n";
+                        ensure!(
+                            Summary::from_str(doomed).is_err(),
+                            "reparse-failed",
+                            "history {} op {}: an entry with a non-numeric FILE_SIZE parsed",
+                            hi,
+                            oi
+                        );
+                    }
                     match metered!(ctx, text.len(), Summary::from_str(&text)) {
                         Ok(parsed) => {
                             if let Err(e) = compare(&parsed, &model) {
